@@ -53,3 +53,9 @@ Print Assumptions c07_large_cutoff.
     generators and the three masks -- are the shapes the model was written from (whole-method match, regenerated). *)
 Theorem c07_cutoff_methods_in_force : cutoff_methods_as_modelled = true /\ cutoff_comparison_is_strict_less = true.
 Proof. split; reflexivity. Qed.
+
+(** Hand-modelled code this property's model and correspondences were written against is unchanged (the distance computation of FCCutoff; the combination tables and index helpers):
+    whole-function match against the recorded source, regenerated on every run. *)
+From SymfcG Require Import ShapesGeom ShapesCombos.
+Theorem c07_recorded_sources_in_force : ShapesGeom_as_recorded = true /\ ShapesCombos_as_recorded = true.
+Proof. repeat split; reflexivity. Qed.
